@@ -64,6 +64,7 @@ PL.h_cap = _poll_complete
 PL.h_pending = PP.poll_header_rules
 
 import r_pe3 as P3
+import r_trace as TR
 D.h_dispatch3 = P3.h_dispatch3
 PL.g_dispatch = P3.h_dispatch3
 L.l_fixed = P3.l_fixed_values
@@ -86,9 +87,8 @@ def reg(pid, level, rules, explanation):
 
 reg("C01", "other",
     [T.t_bij, P.t_prop3, L.l_eq, B.l_cover, P.l_propdec, D.h_dispatch3, T.t_varint_readers, PL.s_persist, PL.h_total,
-     B.t_bits, C.h_payfmt, L.t_ctl, P3.h_shortform],
-    "NOT decided: equality of the decoded value with the original over the unbounded value space (a runtime quantity); field order "
-    "inside bodies (L-trace was not built). Decided: structural necessary conditions of a round trip, each exact for what it compares: "
+     B.t_bits, C.h_payfmt, L.t_ctl, P3.h_shortform, TR.l_trace],
+    "NOT decided: equality of the decoded value with the original over the unbounded value space (a runtime quantity). Decided: structural necessary conditions of a round trip, each exact for what it compares: "
     "T-bij (every wire-code enum's `as u8` discriminant table and its from_u8 table, evaluated for all 256 bytes, are inverse "
     "bijections), T-prop3 (decode / encode / encode_len of every v5 property set handle the same ids wired to the same field), L-eq "
     "(encode writes what encode_len declares, for every field combination), L-cover (every length-bearing field is written, "
@@ -96,7 +96,8 @@ reg("C01", "other",
     "front-ends run the same body decoders), V-reader/P-header/S-persist/P-complete/P-body (the poll front-end decodes the same header, "
     "hands over the raw body and reports 1+len-of-len+remaining), T-bits / T-ctl (flag bytes and control bytes written by the encoders "
     "are the ones the decoders read back, over their complete domains), H-payfmt (the payload check rejects only flag=Some(true) with "
-    "invalid UTF-8), H-shortform (the v5 short forms the encoder emits are the ones the decoders accept).")
+    "invalid UTF-8), H-shortform (the v5 short forms the encoder emits are the ones the decoders accept), L-trace (encoder and decoder of "
+    "every body put the same kinds of wire items in the same order and a field is read at the position at which it is written).")
 
 reg("C02", "other",
     [L.l_eq, L.l_hdr, L.l_fixed, L.s_dbg, PN.s_panic_encode, T.t_width, T.t_varint_writer],
@@ -184,17 +185,18 @@ reg("C09", "other",
     "encode closure reads no static/thread-local/interior-mutable state and calls nothing environment dependent (S-pure).")
 
 reg("C10", "other",
-    [T.t_rc, L.t_ctl, P.t_propid, B.t_bits, T.t_varint_writer, T.t_proto, L.l_hdr, L.l_eq, P.t_prop3],
+    [T.t_rc, L.t_ctl, P.t_propid, B.t_bits, T.t_varint_writer, T.t_proto, L.l_hdr, L.l_eq, P.t_prop3, TR.l_trace],
     "Static analysis cannot run an independent decoder; decided instead: every constant the encoder puts on the wire equals the "
     "independently typed OASIS tables (spec_mqtt.py): control bytes incl. PUBLISH flag bits for all 12 flag combinations (T-ctl), all "
     "138 wire-code enum discriminants (T-rc), property ids, their wire types and the id-then-value order, length prefix = sum of "
     "written items (T-propid), CONNECT flag and subscription-option bit layouts (T-bits), the var-int writer's transfer function "
-    "(V-writer), protocol name/level pairs (T-proto), header assembly (L-hdr). Not decided here: body field order against the spec "
-    "(L-trace is not implemented); big-endian integers rest on to_be_bytes being the only integer serialiser reached (checked by L's "
+    "(V-writer), protocol name/level pairs (T-proto), header assembly (L-hdr). L-trace decides that the encoder's item order is the decoder's (not "
+    "that either is the specification's); big-endian integers rest on to_be_bytes being the only integer serialiser reached (checked by L's "
     "primitive summaries).")
 
 reg("C11", "other",
-    [L.l_eq, B.l_cover, T.t_bij, PN.s_panic_encode, T.t_width, C.h_ctor, P.l_propdec, P.h_proplen, B.t_bits, L.t_ctl, P3.h_shortform],
+    [L.l_eq, B.l_cover, T.t_bij, PN.s_panic_encode, T.t_width, C.h_ctor, P.l_propdec, P.h_proplen, B.t_bits, L.t_ctl, P3.h_shortform,
+     TR.l_trace],
     "NOT decided: the runtime round trip over accepted byte strings. Decided (necessary): the encoder is length-exact on every "
     "value a decoder can construct, not only canonical ones (L-eq quantifies over all atom assignments); every length-bearing "
     "field is written whenever present, depending only on itself (L-cover); every enum value a from_u8 table returns is written "
